@@ -272,6 +272,14 @@ def run(repo, chk):
     for q_ in ("probe.Probe.__init__", "probe.probing", "probe.global_probe"):
         chk.ob("R02.4", f"{q_}:raw-defaults-to-False", default_of(repo, q_, "raw") == "False", repo.func(q_).where,
                f"unless raw=True is asked for, events are the plain {{name: value}} dictionaries (default of `raw` in {q_}: {default_of(repo, q_, 'raw')})")
+    # the convenience entry points hand every option on under its own name (raw / probe_type / env decide what a subscriber receives)
+    for q_ in ("probe.probing", "probe.global_probe"):
+        f_ = repo.func(q_)
+        opts = [a.arg for a in f_.node.args.kwonlyargs if a.arg in ("raw", "probe_type", "env")]
+        ctor_calls = [n for n in walk_local(f_.node) if isinstance(n, ast.Call) and any(isinstance(a, ast.Starred) and norm(a.value) == (f_.node.args.vararg.arg if f_.node.args.vararg else "selectors") for a in n.args)]
+        ok_fw = len(ctor_calls) == 1 and {k.arg: norm(k.value) for k in ctor_calls[0].keywords if k.arg in ("raw", "probe_type", "env")} == {o: o for o in ("raw", "probe_type", "env")} and set(opts) == {"raw", "probe_type", "env"}
+        chk.ob("R02.4", f"{q_}:options-handed-through", ok_fw, f_.where,
+               f"{q_} builds the probe from its selectors with raw=raw, probe_type=probe_type, env=env (found {[norm(c)[:90] for c in ctor_calls]})")
     from .shared import variant_selection_obligations
     variant_selection_obligations(repo, chk, "R02.6")
     from ..pairing import contextvars_of, journal_findings
